@@ -135,7 +135,7 @@ func c05pool(lo, hi *big.Int, rng *core.Rng) []*big.Int {
 }
 
 func C05(c *core.Ctx) {
-	c.Rule = "generated modules of leaves/leaf-lists: every numeric base type (+decimal64, string length) × typedef chains of depth 0–3 × restriction texts (alternatives, open ends, min/max, single values, negative and 64-bit bounds) × candidate values at and around every bound, base min/max, 0; written through SetValue, UpsertFrom(JSON) and UpsertFrom(node); store compared before/after. non-trivial = value within ±1 of a bound or at a base-type extreme; distinct by (leaf type text, value, path); directed (c05typedValues): 24 typed values (val.Enum, val.Bits, val.IdentRef, lists, values of another kind) written with Selection.Set and handed to UpsertFrom by a source node: stored iff a value of the type"
+	c.Rule = "generated modules of leaves/leaf-lists: every numeric base type (+decimal64, string length) × typedef chains of depth 0–3 × restriction texts (alternatives, open ends, min/max, single values, negative and 64-bit bounds) × candidate values at and around every bound, base min/max, 0; written through SetValue, UpsertFrom(JSON) and UpsertFrom(node); store compared before/after. non-trivial = value within ±1 of a bound or at a base-type extreme; distinct by (leaf type text, value, path); directed (c05typedValues): 24 typed values (val.Enum, val.Bits, val.IdentRef, lists, values of another kind) written with Selection.Set and handed to UpsertFrom by a source node: stored iff a value of the type; (c05identityBases) identityref types with one and two bases, through a typedef, a leafref and on a leaf-list × 8 identities (bases, derived from one, from both, from a derived one, unknown): verdict compared with Member.identByBases over the closures the compiled schema shows"
 	c.Assumptions = append(c.Assumptions,
 		"regexp matching is an uninterpreted predicate: the harness evaluates each pattern with Go's regexp and passes the booleans to the model",
 		"decimal64 values/bounds are generated with ≤2 fraction digits and |x| ≤ 10^6 so that float64 comparison agrees with exact decimal comparison",
@@ -151,6 +151,7 @@ func C05(c *core.Ctx) {
 	}
 	c05membership(c, rng)
 	c05typedValues(c)
+	c05identityBases(c)
 }
 
 // values that were not made for the leaf they are written to - handed to Set as typed values by the caller, or to
@@ -239,6 +240,104 @@ func c05typedValues(c *core.Ctx) {
 				c.Violation(core.Replay{Kind: "property-failure", Class: "typed-value-" + path, Summary: fmt.Sprintf("%s: %s written to %s as %T %v: %s", path, tc.name, tc.leaf, tc.v, tc.v, bad),
 					Input: map[string]interface{}{"yang": y, "path": path, "leaf": tc.leaf, "value": fmt.Sprintf("%T %v", tc.v, tc.v)}, Impl: bad, Spec: map[bool]string{true: "accepted and stored", false: "an error, nothing stored"}[tc.ok]})
 			}
+		}
+	}
+}
+
+// identityref: a value is an identity derived from every base the type names (RFC 7950 9.10.2), which a base itself
+// is not
+func c05identityBases(c *core.Ctx) {
+	y := `module ib { yang-version 1.1; namespace "urn:ib"; prefix ib; revision 2020-01-01;
+  identity base1; identity base2; identity d1 { base base1; } identity d2 { base base2; } identity d12 { base base1; base base2; } identity dd { base d12; } identity d1d { base d1; }
+  leaf id1 { type identityref { base base1; } } leaf id12 { type identityref { base base1; base base2; } }
+  leaf-list idl { type identityref { base base2; base base1; } }
+  typedef both { type identityref { base base1; base base2; } } leaf idt { type both; } leaf lr { type leafref { path "/ib:id12"; } } }`
+	m, err := parser.LoadModuleFromString(nil, y)
+	if err != nil {
+		c.Violation(core.Replay{Kind: "property-failure", Class: "identity-bases-load", Summary: "valid module does not load: " + err.Error(), Input: y})
+		return
+	}
+	derived1 := map[string]bool{"d1": true, "d12": true, "dd": true, "d1d": true}
+	derivedBoth := map[string]bool{"d12": true, "dd": true}
+	// the same verdict from the model (Member.identByBases), fed with what the compiled schema says each base derives
+	var closure func(ids []*meta.Identity, out *[]string)
+	closure = func(ids []*meta.Identity, out *[]string) {
+		for _, id := range ids {
+			*out = append(*out, id.Ident())
+			closure(id.DerivedDirect(), out)
+		}
+	}
+	var lines, impls, descs []string
+	for _, leaf := range []string{"id1", "id12", "idl", "idt", "lr"} {
+		for _, id := range []string{"base1", "base2", "d1", "d2", "d12", "dd", "d1d", "nope"} {
+			want := derivedBoth[id]
+			if leaf == "id1" {
+				want = derived1[id]
+			}
+			doc := fmt.Sprintf(`{"%s":"%s"}`, leaf, id)
+			if leaf == "idl" {
+				doc = fmt.Sprintf(`{"idl":["d12","%s"]}`, id)
+			}
+			store := map[string]interface{}{}
+			var werr error
+			e := safeDo(func() error {
+				src, err := nodeutil.ReadJSON(doc)
+				if err != nil {
+					return err
+				}
+				werr = node.NewBrowser(m, nodeutil.ReflectChild(store)).Root().UpsertFrom(src)
+				return nil
+			})
+			_, stored := store[leaf]
+			if e == nil && leaf != "idl" {
+				t := meta.Find(m, leaf).(meta.HasType).Type()
+				for hops := 0; t.Format().Single() == val.FmtLeafRef && hops < 8; hops++ {
+					t = t.Resolve()
+				}
+				line := "c05 ident " + core.Hex(id)
+				for _, b := range t.Base() {
+					var names []string
+					closure(b.DerivedDirect(), &names)
+					line += " " + core.Hex(strings.Join(names, " "))
+				}
+				lines = append(lines, line)
+				if stored {
+					impls = append(impls, fmt.Sprintf("ok:%v", store[leaf]))
+				} else {
+					impls = append(impls, "err")
+				}
+				descs = append(descs, doc)
+			}
+			c.Evaluations++
+			c.Count("identity_bases", map[bool]string{true: "derived from every base", false: "not derived from every base"}[want])
+			c.Distinct("identbases " + doc)
+			bad := ""
+			switch {
+			case e != nil:
+				bad = e.Error()
+			case want && (werr != nil || !stored):
+				bad = fmt.Sprintf("refused (%v)", werr)
+			case !want && stored:
+				bad = fmt.Sprintf("accepted and stored as %v", store[leaf])
+			case !want && werr == nil:
+				bad = "not stored and no error"
+			}
+			if bad != "" {
+				c.Violation(core.Replay{Kind: "property-failure", Class: "identity-bases", Summary: fmt.Sprintf("upsert %s: %s; derived from every base of the type: %v", doc, bad, want),
+					Input: map[string]interface{}{"yang": y, "doc": doc}, Impl: bad, Spec: fmt.Sprint(want)})
+			}
+		}
+	}
+	outs, err := core.RunDriver(lines)
+	if err != nil {
+		c.ProofBroken = append(c.ProofBroken, err.Error())
+		return
+	}
+	for i, o := range outs {
+		c.Count("identity_bases_model", strings.SplitN(o, ":", 2)[0])
+		if o != impls[i] {
+			c.Violation(core.Replay{Kind: "correspondence", Class: "identity-bases-model", Summary: fmt.Sprintf("upsert %s: library %s, model (identByBases over the compiled identities) %s", descs[i], impls[i], o),
+				Input: map[string]interface{}{"yang": y, "doc": descs[i], "line": lines[i]}, Impl: impls[i], Spec: o})
 		}
 	}
 }
